@@ -230,6 +230,28 @@ func (e *Engine) contractFor(fn *ssa.Function) *Contract {
 	return c
 }
 
+// typeInvsFor returns the invariants declared for a (pointer to a) named repository type.
+func (e *Engine) typeInvsFor(T types.Type) []*TypeInv {
+	name, pkg := "", ""
+	if p, ok := T.(*types.Pointer); ok {
+		if n, ok := p.Elem().(*types.Named); ok && n.Obj().Pkg() != nil {
+			name, pkg = "*"+n.Obj().Name(), n.Obj().Pkg().Path()
+		}
+	} else if n, ok := T.(*types.Named); ok && n.Obj().Pkg() != nil {
+		name, pkg = n.Obj().Name(), n.Obj().Pkg().Path()
+	}
+	if name == "" {
+		return nil
+	}
+	var invs []*TypeInv
+	for _, ti := range e.cs.TypeInvs {
+		if ti.Pkg == pkg && ti.Type == name {
+			invs = append(invs, ti)
+		}
+	}
+	return invs
+}
+
 // withTypeInv adds the receiver type's invariant as requires and ensures of a method.
 func (e *Engine) withTypeInv(fn *ssa.Function, c *Contract) *Contract {
 	if len(e.cs.TypeInvs) == 0 || fn.Signature.Recv() == nil || fn.Parent() != nil {
@@ -286,8 +308,8 @@ func (e *Engine) withIfaceContracts(fn *ssa.Function, c *Contract) *Contract {
 	rt := fn.Signature.Recv().Type()
 	var extra []*Clause
 	for key, ic := range e.cs.Funcs {
-		if ic.Trusted || ic.Pkg == "" || len(ic.Ensures) == 0 {
-			continue
+		if ic.Trusted || ic.Pkg == "" || len(ic.Ensures) == 0 || ic.Opts["assumed"] != "" {
+			continue // an assumed interface contract defines an abstraction; implementers are not checked against it
 		}
 		// key: pkg::(Iface).Method
 		i := strings.Index(key, "::(")
